@@ -113,10 +113,12 @@ func mgmtExec(t *testing.T, w *traceWriter, conf mgConf, next func(e int) *mgCmd
 			dispatch.InitializeFWThreads([]dispatch.FWThread{th})
 			go guard("fw", func() { th.Run() })
 			synctest.Wait()
+			var allFaces []face.LinkService // also those a faces/destroy command takes out of the face table
 			mkReq := func(scope defn.Scope, l, r *defn.URI) *reqFace {
 				tx := face.NewVerifMemTransportURI(l, r, scope, 8800)
 				ls := face.VerifMakeLinkService(tx, face.MakeNDNLPLinkServiceOptions())
 				ls.Run(nil)
+				allFaces = append(allFaces, ls)
 				return &reqFace{id: ls.FaceID(), tx: tx}
 			}
 			fL := mkReq(defn.Local, defn.MakeUnixFaceURI("/run/nfd.sock"), defn.MakeFDFaceURI(7))
@@ -127,6 +129,7 @@ func mgmtExec(t *testing.T, w *traceWriter, conf mgConf, next func(e int) *mgCmd
 				tx := face.NewVerifMemTransportURI(defn.MakeUDPFaceURI(4, "10.0.0.1", 6363), defn.MakeUDPFaceURI(4, "10.0.0.2", uint16(6363+i)), defn.NonLocal, 1500)
 				ls := face.VerifMakeLinkService(tx, face.MakeNDNLPLinkServiceOptions())
 				ls.Run(nil)
+				allFaces = append(allFaces, ls)
 				real = append(real, ls.FaceID())
 				realTx = append(realTx, tx)
 			}
@@ -221,7 +224,50 @@ func mgmtExec(t *testing.T, w *traceWriter, conf mgConf, next func(e int) *mgCmd
 				} else {
 					dsOK = false
 				}
-				o["dsRoutes"], o["dsStrats"], o["dsOK"] = dsRoutes, dsStrats, dsOK
+				dsFib := []map[string]any{}
+				if ds := ask(fL, nm("/localhost/nfd/fib/list"), nonce*7+3); len(ds) > 0 {
+					if st, err := mgmtdef.ParseFibStatus(enc.NewWireReader(ds[0].ContentV), true); err == nil {
+						for _, e := range st.Entries {
+							hops := [][]uint64{}
+							for _, h := range e.NextHopRecords {
+								hops = append(hops, []uint64{h.FaceId, h.Cost})
+							}
+							sort.Slice(hops, func(i, j int) bool { return hops[i][0] < hops[j][0] })
+							dsFib = append(dsFib, map[string]any{"p": nameStrs(e.Name), "hops": hops})
+						}
+					} else {
+						dsOK = false
+					}
+				} else {
+					dsOK = false
+				}
+				dsFaces := []map[string]any{}
+				if ds := ask(fL, nm("/localhost/nfd/faces/list"), nonce*7+4); len(ds) > 0 {
+					if st, err := mgmtdef.ParseFaceStatusMsg(enc.NewWireReader(ds[0].ContentV), true); err == nil {
+						for _, e := range st.Vals {
+							mtu := -1
+							if e.Mtu != nil {
+								mtu = int(*e.Mtu)
+							}
+							dsFaces = append(dsFaces, map[string]any{"id": e.FaceId, "mtu": mtu})
+						}
+					} else {
+						dsOK = false
+					}
+				} else {
+					dsOK = false
+				}
+				dsCap := -1
+				if ds := ask(fL, nm("/localhost/nfd/cs/info"), nonce*7+5); len(ds) > 0 {
+					if st, err := mgmtdef.ParseCsInfoMsg(enc.NewWireReader(ds[0].ContentV), true); err == nil && st.CsInfo != nil {
+						dsCap = int(st.CsInfo.Capacity)
+					} else {
+						dsOK = false
+					}
+				} else {
+					dsOK = false
+				}
+				o["dsRoutes"], o["dsStrats"], o["dsOK"], o["dsFib"], o["dsFaces"], o["dsCap"] = dsRoutes, dsStrats, dsOK, dsFib, dsFaces, dsCap
 				return o
 			}
 			for e := 0; crashed == ""; e++ {
@@ -344,7 +390,7 @@ func mgmtExec(t *testing.T, w *traceWriter, conf mgConf, next func(e int) *mgCmd
 				}
 				if crashed != "" {
 					status = "CRASH"
-					o = map[string]any{"routes": []any{}, "strats": []any{}, "cap": 0, "fib": []any{}, "faces": []any{}, "dsRoutes": []any{}, "dsStrats": []any{}, "dsOK": false, "crash": crashed}
+					o = map[string]any{"routes": []any{}, "strats": []any{}, "cap": 0, "fib": []any{}, "faces": []any{}, "dsRoutes": []any{}, "dsStrats": []any{}, "dsOK": false, "dsFib": []any{}, "dsFaces": []any{}, "dsCap": 0, "crash": crashed}
 				}
 				o["status"], o["probes"] = status, probes
 				w.Emit(map[string]any{"ev": "cmd", "c": c, "o": o, "g": g})
@@ -361,7 +407,11 @@ func mgmtExec(t *testing.T, w *traceWriter, conf mgConf, next func(e int) *mgCmd
 				th.TellToQuit()
 				<-th.HasQuit
 			}
-			for _, f := range face.FaceTable.GetAll() { // one at a time: concurrent face removal races in the RIB (C16)
+			for _, f := range face.FaceTable.GetAll() { // one at a time
+				f.Close()
+				synctest.Wait()
+			}
+			for _, f := range allFaces { // faces destroyed by command are out of the table but their goroutines still run
 				f.Close()
 				synctest.Wait()
 			}
@@ -401,7 +451,7 @@ func mgRandom(rng *rand.Rand) *mgCmd {
 	case 6:
 		g.Mod, g.Verb = "cs", "config"
 	case 7:
-		g.Mod, g.Verb = "faces", "update"
+		g.Mod, g.Verb = "faces", pickS("update", "update", "update", "destroy")
 	default:
 		g.Mod, g.Verb = pickS("rib", "fib", "cs", "strategy-choice", "faces"), "bogus"
 	}
@@ -412,6 +462,9 @@ func mgRandom(rng *rand.Rand) *mgCmd {
 	case "faces":
 		g.HasName = false
 		g.FaceRole = pickS("real0", "real1", "real0", "missing", "none")
+		if g.Verb == "destroy" { // the second target face, one that does not exist, or none named; never the faces the harness talks through
+			g.FaceRole = pickS("real1", "real1", "missing", "none")
+		}
 		g.Mtu = pickS("0", "1", "50", "63", "64", "127", "128", "1500", "8800", "8801", "4294967296", "9223372036854775808", "18446744073709551615")
 	default:
 		if rng.Intn(8) == 0 {
